@@ -144,7 +144,8 @@ CLAIMS = {
   "the dual statements are the same ones about dual slacks), for every number of rows: the test never "
   "ends RATIO_FAILED whatever the arithmetic's comparison answers (the mpf instance is run on large-magnitude rows to observe exactly that), "
   "RATIO_UNBOUNDED means every step up to the infinity stand-in keeps all basic variables inside their bounds, NOBCHANGE / BCHANGE steps keep them "
-  "inside and at tolerance 0 the leaving variable lands on the bound lvstat names. Explored, not proved: that QSexact_solver terminates with the true "
+  "inside, at tolerance 0 the leaving variable lands on the bound lvstat names, and among the rows that block no later than the step the leaving row has the "
+  "largest pivot element. Explored, not proved: that QSexact_solver terminates with the true "
   "definitive status on every moderate LP (simplex control, LU, pricing and the phase-I / long-step ratio tests are not modelled): every generated LP is classified by a self-certifying "
   "reference whose certificate passed the proved checker and the real solver's status and exact value are compared with it (exhaustive small "
   "family, degenerate, cycling-prone, margins 2^-k and near-parallel equalities, scales 10^±e, awkward denominators, random up to 30x30).",
